@@ -242,6 +242,10 @@ class C06(Check):
                 plan.append([dict(a, target='s0'), dict(b, target='s0', token=[777])])
                 plan.append([dict(a, target='s0'), dict(b, target='s0', token=list(a['token']))])     # an equal token again
                 plan.append([dict(a, target='s0', token=[]), dict(b, target='s0', token=[])])          # no token, twice
+                # ... and a repetition within the next few activations (the same time step, as a rule: the first request has
+                # been delivered, the task is busy reacting to it)
+                for d in (1, 2, 4):
+                    plan.append([dict(a, target='s0'), dict(a, target='s0', k=min(a['k'] + d, N), token=list(a['token']))])
         for faults in plan:
             it, oc, exc, p = execute(prog, mk(), faults=faults, sample=True)
             out.evals += 1
